@@ -13,9 +13,9 @@ Iso8601/Ext.vos Iso8601/Ext.vok Iso8601/Ext.required_vos: Iso8601/Ext.v Base/GoI
 Generated/Iso8601Gen.vo Generated/Iso8601Gen.glob Generated/Iso8601Gen.v.beautified Generated/Iso8601Gen.required_vo: Generated/Iso8601Gen.v Base/GoInt.vo Iso8601/Ext.vo
 Generated/Iso8601Gen.vio: Generated/Iso8601Gen.v Base/GoInt.vio Iso8601/Ext.vio
 Generated/Iso8601Gen.vos Generated/Iso8601Gen.vok Generated/Iso8601Gen.required_vos: Generated/Iso8601Gen.v Base/GoInt.vos Iso8601/Ext.vos
-Extract/Extract.vo Extract/Extract.glob Extract/Extract.v.beautified Extract/Extract.required_vo: Extract/Extract.v Base/GoInt.vo Iso8601/Ext.vo Generated/Iso8601Gen.vo Iso8601/Spec.vo Generated/AsmAsciiGen.vo Ascii/AsmTotal.vo Generated/AsciiGen.vo Ascii/Spec.vo Proto/Ext.vo Generated/ProtoGen.vo Proto/Model.vo Proto/PrimSpec.vo Proto/Spec.vo Json/Ext.vo Generated/JsonParseGen.vo Json/Grammar.vo Json/Spec.vo
-Extract/Extract.vio: Extract/Extract.v Base/GoInt.vio Iso8601/Ext.vio Generated/Iso8601Gen.vio Iso8601/Spec.vio Generated/AsmAsciiGen.vio Ascii/AsmTotal.vio Generated/AsciiGen.vio Ascii/Spec.vio Proto/Ext.vio Generated/ProtoGen.vio Proto/Model.vio Proto/PrimSpec.vio Proto/Spec.vio Json/Ext.vio Generated/JsonParseGen.vio Json/Grammar.vio Json/Spec.vio
-Extract/Extract.vos Extract/Extract.vok Extract/Extract.required_vos: Extract/Extract.v Base/GoInt.vos Iso8601/Ext.vos Generated/Iso8601Gen.vos Iso8601/Spec.vos Generated/AsmAsciiGen.vos Ascii/AsmTotal.vos Generated/AsciiGen.vos Ascii/Spec.vos Proto/Ext.vos Generated/ProtoGen.vos Proto/Model.vos Proto/PrimSpec.vos Proto/Spec.vos Json/Ext.vos Generated/JsonParseGen.vos Json/Grammar.vos Json/Spec.vos
+Extract/Extract.vo Extract/Extract.glob Extract/Extract.v.beautified Extract/Extract.required_vo: Extract/Extract.v Base/GoInt.vo Iso8601/Ext.vo Generated/Iso8601Gen.vo Iso8601/Spec.vo Generated/AsmAsciiGen.vo Ascii/AsmTotal.vo Generated/AsciiGen.vo Ascii/Spec.vo Proto/Ext.vo Generated/ProtoGen.vo Proto/Model.vo Proto/PrimSpec.vo Proto/Spec.vo Json/Ext.vo Generated/JsonParseGen.vo Json/Grammar.vo Json/Spec.vo Thrift/Model.vo Thrift/Spec.vo
+Extract/Extract.vio: Extract/Extract.v Base/GoInt.vio Iso8601/Ext.vio Generated/Iso8601Gen.vio Iso8601/Spec.vio Generated/AsmAsciiGen.vio Ascii/AsmTotal.vio Generated/AsciiGen.vio Ascii/Spec.vio Proto/Ext.vio Generated/ProtoGen.vio Proto/Model.vio Proto/PrimSpec.vio Proto/Spec.vio Json/Ext.vio Generated/JsonParseGen.vio Json/Grammar.vio Json/Spec.vio Thrift/Model.vio Thrift/Spec.vio
+Extract/Extract.vos Extract/Extract.vok Extract/Extract.required_vos: Extract/Extract.v Base/GoInt.vos Iso8601/Ext.vos Generated/Iso8601Gen.vos Iso8601/Spec.vos Generated/AsmAsciiGen.vos Ascii/AsmTotal.vos Generated/AsciiGen.vos Ascii/Spec.vos Proto/Ext.vos Generated/ProtoGen.vos Proto/Model.vos Proto/PrimSpec.vos Proto/Spec.vos Json/Ext.vos Generated/JsonParseGen.vos Json/Grammar.vos Json/Spec.vos Thrift/Model.vos Thrift/Spec.vos
 Iso8601/Spec.vo Iso8601/Spec.glob Iso8601/Spec.v.beautified Iso8601/Spec.required_vo: Iso8601/Spec.v Base/GoInt.vo Iso8601/Ext.vo Generated/Iso8601Gen.vo
 Iso8601/Spec.vio: Iso8601/Spec.v Base/GoInt.vio Iso8601/Ext.vio Generated/Iso8601Gen.vio
 Iso8601/Spec.vos Iso8601/Spec.vok Iso8601/Spec.required_vos: Iso8601/Spec.v Base/GoInt.vos Iso8601/Ext.vos Generated/Iso8601Gen.vos
@@ -97,3 +97,24 @@ Properties/C16.vos Properties/C16.vok Properties/C16.required_vos: Properties/C1
 Properties/C07.vo Properties/C07.glob Properties/C07.v.beautified Properties/C07.required_vo: Properties/C07.v Base/GoInt.vo Proto/Ext.vo Generated/ProtoGen.vo Proto/Model.vo Proto/PrimSpec.vo Proto/Spec.vo Proto/DecProofs.vo
 Properties/C07.vio: Properties/C07.v Base/GoInt.vio Proto/Ext.vio Generated/ProtoGen.vio Proto/Model.vio Proto/PrimSpec.vio Proto/Spec.vio Proto/DecProofs.vio
 Properties/C07.vos Properties/C07.vok Properties/C07.required_vos: Properties/C07.v Base/GoInt.vos Proto/Ext.vos Generated/ProtoGen.vos Proto/Model.vos Proto/PrimSpec.vos Proto/Spec.vos Proto/DecProofs.vos
+Thrift/Model.vo Thrift/Model.glob Thrift/Model.v.beautified Thrift/Model.required_vo: Thrift/Model.v Base/GoInt.vo
+Thrift/Model.vio: Thrift/Model.v Base/GoInt.vio
+Thrift/Model.vos Thrift/Model.vok Thrift/Model.required_vos: Thrift/Model.v Base/GoInt.vos
+Thrift/Spec.vo Thrift/Spec.glob Thrift/Spec.v.beautified Thrift/Spec.required_vo: Thrift/Spec.v Base/GoInt.vo Thrift/Model.vo
+Thrift/Spec.vio: Thrift/Spec.v Base/GoInt.vio Thrift/Model.vio
+Thrift/Spec.vos Thrift/Spec.vok Thrift/Spec.required_vos: Thrift/Spec.v Base/GoInt.vos Thrift/Model.vos
+Thrift/ProofsB.vo Thrift/ProofsB.glob Thrift/ProofsB.v.beautified Thrift/ProofsB.required_vo: Thrift/ProofsB.v Base/GoInt.vo Thrift/Model.vo Thrift/Spec.vo
+Thrift/ProofsB.vio: Thrift/ProofsB.v Base/GoInt.vio Thrift/Model.vio Thrift/Spec.vio
+Thrift/ProofsB.vos Thrift/ProofsB.vok Thrift/ProofsB.required_vos: Thrift/ProofsB.v Base/GoInt.vos Thrift/Model.vos Thrift/Spec.vos
+Thrift/ProofsA.vo Thrift/ProofsA.glob Thrift/ProofsA.v.beautified Thrift/ProofsA.required_vo: Thrift/ProofsA.v Base/GoInt.vo Thrift/Model.vo Thrift/Spec.vo
+Thrift/ProofsA.vio: Thrift/ProofsA.v Base/GoInt.vio Thrift/Model.vio Thrift/Spec.vio
+Thrift/ProofsA.vos Thrift/ProofsA.vok Thrift/ProofsA.required_vos: Thrift/ProofsA.v Base/GoInt.vos Thrift/Model.vos Thrift/Spec.vos
+Properties/C04.vo Properties/C04.glob Properties/C04.v.beautified Properties/C04.required_vo: Properties/C04.v Base/GoInt.vo Thrift/Model.vo
+Properties/C04.vio: Properties/C04.v Base/GoInt.vio Thrift/Model.vio
+Properties/C04.vos Properties/C04.vok Properties/C04.required_vos: Properties/C04.v Base/GoInt.vos Thrift/Model.vos
+Properties/C08.vo Properties/C08.glob Properties/C08.v.beautified Properties/C08.required_vo: Properties/C08.v Base/GoInt.vo Thrift/Model.vo
+Properties/C08.vio: Properties/C08.v Base/GoInt.vio Thrift/Model.vio
+Properties/C08.vos Properties/C08.vok Properties/C08.required_vos: Properties/C08.v Base/GoInt.vos Thrift/Model.vos
+Properties/C13.vo Properties/C13.glob Properties/C13.v.beautified Properties/C13.required_vo: Properties/C13.v Base/GoInt.vo Thrift/Model.vo
+Properties/C13.vio: Properties/C13.v Base/GoInt.vio Thrift/Model.vio
+Properties/C13.vos Properties/C13.vok Properties/C13.required_vos: Properties/C13.v Base/GoInt.vos Thrift/Model.vos
